@@ -23,13 +23,15 @@
    * contains only similarities within [threshold, 1]             -> sims_in_threshold_one
    * keeps the most similar neighbours when truncated             -> truncation_keeps_most_similar
    * does not depend on the block size                            -> block_size_irrelevant
+   * cosine similarity between rating vectors (does not depend on
+     the magnitude of the ratings)                                -> similarity_scale_invariant
    * scores equal the definition, up to ties (verified checkers)  -> item_score_eq_definition_partial,
                                                                      user_score_eq_definition_partial,
                                                                      item_score_checker, user_score_checker
    * fast and dense top-k paths agree with the one definition     -> knn_paths_agree
    * no score when fewer than the minimum qualify                 -> too_few_neighbours_unscored *)
 From Coq Require Import ZArith QArith Qabs List Bool Sorted Permutation.
-From LK Require Import Lib.QLib Lib.SortPerm Model.C09_knn Proofs.C09_sim_proofs Proofs.C09_score_proofs.
+From LK Require Import Lib.QLib Lib.SortPerm Model.C09_knn Proofs.C09_sim_proofs Proofs.C09_score_proofs Proofs.C09_scale_proofs.
 Import ListNotations.
 Open Scope Q_scope.
 
@@ -64,6 +66,14 @@ Theorem block_size_irrelevant : forall {A} (row : nat -> A) n bs, (0 < bs)%nat -
   sim_blocks row n bs = map row (seq 0 n).
 Proof. exact @block_size_irrelevant_l. Qed.
 Print Assumptions block_size_irrelevant.
+
+(* the similarity is a cosine: every rating multiplied by one non-zero constant c (rscale c R) leaves each squared
+   cosine, each threshold decision and each truncation as they are -- explicit (mean-centred) and implicit mode *)
+Theorem similarity_scale_invariant : forall c R explicit min2 save i, ~ c == 0 ->
+  sim_cols (prep explicit (rscale c R)) min2 save i = sim_cols (prep explicit R) min2 save i /\
+  forall j, sq (prep explicit (rscale c R)) i j == sq (prep explicit R) i j.
+Proof. exact similarity_scale_invariant_l. Qed.
+Print Assumptions similarity_scale_invariant.
 
 (* the item scorer's output has the documented form (ItemSpec): some top selection (TopSel: min(k, size)
    distinct stored neighbours among the rated items, none left out strictly more similar) aggregated
